@@ -11,6 +11,7 @@ import (
 	"os"
 	"regexp"
 	"sort"
+	"strconv"
 	"strings"
 
 	"golang.org/x/tools/go/packages"
@@ -1459,6 +1460,8 @@ func archCompat(r *Run, w *World) {
 	// forward: getArch
 	if ga, err := w.Func("rule", "getArch"); err != nil {
 		r.Anchor(err)
+	} else if archByPaths(r, w, ga, compat, self32) {
+		// decided by enumerating getArch's paths for every (kind, runtime) pair
 	} else {
 		seen := map[string]bool{}
 		for _, arm := range switchArms(ga) {
@@ -1765,4 +1768,101 @@ func orQ(s string) string {
 		return "?"
 	}
 	return s
+}
+
+// archByPaths decides the getArch half of C20.R10 whatever the shape of the code: for kind in
+// {b64, b32} and every runtime architecture, the paths of getArch are enumerated with
+// strings.ToLower(arch) pinned to the kind and getRuntimeArch's result pinned to the
+// architecture; the name a success path returns must be the runtime architecture itself, its
+// compat architecture, or there must be no success path. Returns false (nothing reported) when
+// the outcome of some pair cannot be read from the paths (a table-driven getArch: the caller
+// then reads the table).
+func archByPaths(r *Run, w *World, ga *ssa.Function, compat map[string]string, self32 map[string]bool) bool {
+	var lowers, rts []ssa.Value
+	instrsOf(ga, func(in ssa.Instruction) {
+		switch v := in.(type) {
+		case *ssa.Call:
+			if calleeName(v) == "strings.ToLower" && len(v.Call.Args) == 1 && isParamValue(v.Call.Args[0], ga.Params[0]) {
+				lowers = append(lowers, v)
+			}
+		case *ssa.Extract:
+			if c, ok := v.Tuple.(*ssa.Call); ok && v.Index == 0 && strings.HasSuffix(calleeName(c), "getRuntimeArch") {
+				rts = append(rts, v)
+			}
+		}
+	})
+	if len(lowers) == 0 || len(rts) == 0 {
+		return false
+	}
+	type outcome struct {
+		key, got, want string
+		pos            token.Pos
+	}
+	var outs []outcome
+	for _, kind := range []string{"b64", "b32"} {
+		for _, rt := range []string{"aarch64", "x86_64", "ppc64", "s390x", "arm", "i386", "s390"} {
+			assume := map[ssa.Value]string{}
+			for _, l := range lowers {
+				assume[l] = strconv.Quote(kind)
+			}
+			for _, e := range rts {
+				assume[e] = strconv.Quote(rt)
+			}
+			ps, complete := Paths(ga, PathOpts{Assume: assume, Cap: 4000})
+			if !complete {
+				return false
+			}
+			got := map[string]bool{}
+			pos := ga.Pos()
+			for _, p := range ps {
+				ret := p.Ret()
+				if ret == nil || len(ret.Results) != 3 || !isNilConst(ret.Results[2]) {
+					continue
+				}
+				pos = ret.Pos()
+				t := p.Term(ret.Results[0])
+				isRT := false
+				for _, e := range rts {
+					if t == Term(e) {
+						isRT = true
+					}
+				}
+				switch {
+				case isRT:
+					got[rt] = true
+				case strings.HasPrefix(t, "\"") && strings.HasSuffix(t, "\""):
+					got[strings.Trim(t, "\"")] = true
+				default:
+					return false // not readable from the path: a table
+				}
+			}
+			want := ""
+			switch {
+			case kind == "b64" && compat[rt] != "":
+				want = rt
+			case kind == "b32" && self32[rt]:
+				want = rt
+			case kind == "b32" && compat[rt] != "":
+				want = compat[rt]
+			}
+			var gl []string
+			for g := range got {
+				gl = append(gl, g)
+			}
+			sort.Strings(gl)
+			outs = append(outs, outcome{"getArch " + kind + " on " + rt, strings.Join(gl, ","), want, pos})
+		}
+	}
+	for _, o := range outs {
+		wantT := o.want
+		if wantT == "" {
+			wantT = "rejected"
+		}
+		gotT := o.got
+		if gotT == "" {
+			gotT = "rejected"
+		}
+		r.Check(o.got == o.want, o.key, o.pos, wantT, fmt.Sprintf("%s resolves to %s; want %s", strings.TrimPrefix(o.key, "getArch "), gotT, wantT))
+	}
+	return true
 }
